@@ -476,8 +476,8 @@ package base
 //@   requires t != nil && targetT != nil
 //@   inline 6 1
 //@   # C08: between two unions an untyped variant on either side accepts
-//@   ensures[C08] t != nil && targetT != nil && targetT.tType == UNION && exists(i, 0 <= i && i < len(targetT.variants) && targetT.variants[i].tType == UNTYPED) ==> result
-//@   ensures[C08] t != nil && targetT != nil && targetT.tType == UNION && exists(i, 0 <= i && i < len(t.variants) && t.variants[i].tType == UNTYPED) ==> result
+//@   ensures[C08] t != nil && targetT != nil && old(targetT.tType == UNION && exists(i, 0 <= i && i < len(targetT.variants) && targetT.variants[i].tType == UNTYPED)) ==> result
+//@   ensures[C08] t != nil && targetT != nil && old(targetT.tType == UNION && exists(i, 0 <= i && i < len(t.variants) && t.variants[i].tType == UNTYPED)) ==> result
 //@   # against a definite type a union matches only through a variant that is untyped or has that type tag
 //@   ensures[C07] t != nil && targetT != nil && targetT.tType != UNION && result ==> exists(i, 0 <= i && i < len(t.variants) && (t.variants[i].tType == UNTYPED || t.variants[i].tType == targetT.tType))
 
